@@ -12,6 +12,8 @@ Tasks:
       after the other over HTTP and returns, per request, status / body / directory changes (snapshot of the
       whole <root>: names, kinds, sizes, sha1) and whether nbdime stopped the IO loop, plus main_server's return
       value.  The string {ROOT} in params, file names and request texts stands for the scratch root.
+      With start['entry'] = {'module': 'nbmergeweb'|'nbdiffweb'|'nbmergetool'|'nbdifftool'|'nbdimeserver', 'argv': [...]}
+      the server is instead started by main(argv) of that real console entry module (no browser; start['params'] unused).
   {'op':'lib_diff', 'base':text, 'remote':text}         nbdime.diff_notebooks on nbformat.reads(text)
   {'op':'lib_merge', 'base':..,'local':..,'remote':..}  decide_notebook_merge with the 'mergetool' strategy
   {'op':'nbread', 'text': text, 'kind':...}             nbformat only (no nbdime): how nbformat.reads classifies text
@@ -226,8 +228,30 @@ def do_serve(task):
                     conv[k] = a
             start_kwargs['difftool_args'] = conv
         closable = start_kwargs.pop('closable', None)
+        entry = start.get('entry')
         try:
-            if closable is None:
+            if entry is not None:
+                # the session is started the way a user starts it: main(argv) of the real console entry module.  start['params']
+                # is NOT used here (it is the harness's reading of the command line, for the oracle).  No browser is opened, and
+                # init_app is wrapped only to learn the port (the entry point's own on_port callback still runs first).
+                import importlib, webbrowser
+                def no_browser(*a, **k):
+                    raise webbrowser.Error('no browser in the C20 rig')
+                webbrowser.get = no_browser
+                real_init_app = nbdimeserver.init_app
+                def init_app(on_port_=None, closable=False, **params):
+                    def both(port):
+                        if on_port_ is not None:
+                            try: on_port_(port)
+                            except Exception as e: res['on_port_error'] = repr(e)[:300]
+                        on_port(port)
+                    return real_init_app(both, closable, **params)
+                nbdimeserver.init_app = init_app
+                if entry['module'] not in ('nbdimeserver', 'nbdiffweb', 'nbmergeweb', 'nbdifftool', 'nbmergetool'):
+                    raise ValueError('unknown entry module %r' % (entry['module'],))
+                emod = importlib.import_module('nbdime.webapp.' + entry['module'])
+                rc = emod.main([str(a) for a in entry['argv']])
+            elif closable is None:
                 rc = nbdimeserver.main_server(on_port=on_port, **start_kwargs)
             else:
                 rc = nbdimeserver.main_server(on_port=on_port, closable=closable, **start_kwargs)
